@@ -132,6 +132,9 @@ CLAIMED = {
         design='4 (C10)', technique=TECH),
 }
 NOT_APPLICABLE = {
+    'C15': 'Attempted and withdrawn: the pixel encoders are tables indexed by byte value and the crop arithmetic of ImageWriter/PngWriter drives range() and slice bounds, so a symbolic crop rectangle or pixel byte is realised value by value - every path is one concrete '
+           'image and the run is plain enumeration (40,000 paths for a 3x2 tile image), which is exhaustive testing, not this technique; zlib and the CRC sit behind the C boundary. One defect found while building the harness (flash rectangle of a crop with '
+           'x >= width) is fixed in /repo and recorded in known_findings.json (DESIGN.md sections 5 and 7.3).',
     'C16': 'HTML link/anchor consistency is a property of generated document structure (which files and id= strings exist); there is no bounded arithmetic/data path to make symbolic - a solver encoding would be a copy of the writer (DESIGN.md section 5).',
     'C17': 'Macro expansion is delimiter/nesting parsing plus Python eval/format; CrossHair realises integers on formatting and cannot decide regexes on symbolic strings at useful lengths, and a hand encoding would restate Python semantics (DESIGN.md section 5).',
 }
